@@ -1,0 +1,17 @@
+//go:build verif
+
+package rhp
+
+import "go.sia.tech/core/types"
+
+// Pass-throughs to unexported Object methods, compiled only with the "verif"
+// build tag (see gateway/verif_hooks.go). Nothing here changes behaviour.
+
+// VerifMaxLen returns the limit a receiver applies when reading o.
+func VerifMaxLen(o Object) int { return o.maxLen() }
+
+// VerifEncode encodes o exactly as the transport functions do.
+func VerifEncode(e *types.Encoder, o Object) { o.encodeTo(e) }
+
+// VerifDecode decodes o exactly as the transport functions do.
+func VerifDecode(d *types.Decoder, o Object) { o.decodeFrom(d) }
